@@ -832,10 +832,10 @@ def prims_uniform(
 def prims_var(
     inp: TensorType,
     dims: Optional[Sequence[int]],
-    correction: int,
+    correction: float = 1.0,
     output_dtype: Optional[int] = None,
 ) -> TensorType:
-    """var(Tensor inp, int[]? dims, *, int correction, ScalarType? output_dtype=None) -> Tensor"""
+    """var(Tensor inp, int[]? dims, float? correction=1, *, ScalarType? output_dtype=None) -> Tensor"""
 
     if not dims:
         # dims can be empty in practice. We just use a None so it is not added in the ONNX graph
